@@ -1661,6 +1661,9 @@ finish_echo_or_pend(thr *t, int i, int how)
 		nng_aio_stop(a->a);
 		LOCK();
 		a->stopped = true;
+		// a running echo callback may already have had its one refused
+		// (NNG_ESTOPPED) submission: the aio is not submitted again
+		if (echo) a->stop_used = true;
 		UNLOCK();
 		break;
 	default:
@@ -2057,7 +2060,7 @@ device_stop(thr *t, int i, bool by_stop)
 	bool started = !(rv == NNG_EINVAL || rv == NNG_EBUSY || rv == NNG_ENOMEM);
 	LOCK();
 	d->st = A_IDLE;
-	if (by_stop) d->stopped = true;
+	if (by_stop) d->stopped = d->stop_used = true;
 	for (int k = 0; k < 2; k++) {
 		int si = k == 0 ? a : b;
 		if (k == 1 && a == b) break;
